@@ -10,14 +10,20 @@
 (*   FilesystemLayout._get_path  os.path.join(root, *parts) -> Comps("fs") *)
 (*   add_folder / rename_folder: _get_path(parts[0:i]) for                 *)
 (*       i in range(1, len(parts) - 1)                      -> Prefixes    *)
+(*   BaseSession.create_mailbox (backend/session.py): CREATE strips one    *)
+(*       trailing delimiter before the layout is consulted  -> Eff         *)
 (*                                                                         *)
 (* A name is a sequence over the abstract alphabet                         *)
 (*   "a"   an ordinary letter          "DOT"  '.'                          *)
 (*   "SEP" '/', which is both the IMAP hierarchy delimiter of the maildir  *)
 (*         backend (MailboxSet.delimiter) and the os path separator        *)
 (*   "U"   a non-ASCII character       "NUL"  '\0'                         *)
-(* (the literal name INBOX cannot be spelled: it is special-cased before   *)
-(* the layout is consulted and names the root legitimately).               *)
+(*   "I"   the five letters INBOX (only in ExtraNames).  The name that is   *)
+(*         exactly INBOX (any case: parsing/specials/mailbox.py normalises *)
+(*         it) splits to no parts and names the root legitimately;         *)
+(*         imap/state.py refuses it in CREATE, DELETE and as the target of *)
+(*         RENAME, the maildir MailboxSet refuses it as the source of      *)
+(*         RENAME.  Inside a longer name "I" is an ordinary component.     *)
 (*                                                                         *)
 (* The kernel walks the components of the joined path from the user's root *)
 (* directory: an empty component and '.' stay, '..' goes to the parent,    *)
@@ -37,10 +43,12 @@
 (*                                                                         *)
 (* TLC enumerates every name up to MaxLen and both layouts (one initial    *)
 (* state each; there are no transitions).  The state carries everything    *)
-(* the harness compares the real server with: the zone of the path, the    *)
-(* zones of the parent-prefix probes, the set `bad` of command slots in    *)
-(* which the name breaks confinement, the zones `allowed` a command acting *)
-(* on that path may be seen touching, and the named deviation class `dev`. *)
+(* the harness compares the real server with: `bad`, the set of command    *)
+(* slots in which the name breaks confinement, and `view`, per slot group  *)
+(* (CREATE sees the name without one trailing delimiter, all other slots   *)
+(* see it as sent): the zone of the path, the zones of the parent-prefix   *)
+(* probes, the zones `allowed` a command acting on that path may be seen   *)
+(* touching, and the named deviation class `cls` of the name.              *)
 (*                                                                         *)
 (* Property (C08): Confined.  The layouts have no confinement, so it fails *)
 (* for Deviations = {} (WirePath_ideal.cfg: the design admits escape);     *)
@@ -70,8 +78,10 @@ PrefixSlots == {"CREATE", "RENAMEto"}
 RootForbidden == {"DELETE", "RENAMEfrom", "RENAMEto"}
 
 -----------------------------------------------------------------------------
-\* str.split(delimiter): n delimiters give n + 1 parts, '' gives ['']
+\* _BaseLayout._split: INBOX -> [], else str.split(delimiter): n delimiters
+\* give n + 1 parts, '' gives ['']
 Split(s) ==
+  IF s = <<"I">> THEN <<>> ELSE
   LET F[i \in 0..Len(s)] ==
         IF i = 0 THEN << <<>> >>
         ELSE LET p == F[i - 1] IN
@@ -87,8 +97,8 @@ JoinDot(parts) ==
         ELSE F[i - 1] \o <<"DOT">> \o parts[i]
   IN F[Len(parts)]
 
-\* DefaultLayout._get_subdir (parts is never empty here: only INBOX splits to [])
-SubdirPP(parts) == <<"DOT">> \o JoinDot(parts)
+\* DefaultLayout._get_subdir ('' for INBOX: os.path.join(root, '') is the root)
+SubdirPP(parts) == IF parts = <<>> THEN <<>> ELSE <<"DOT">> \o JoinDot(parts)
 
 \* the components os.path.join appends to the root.  No part contains the
 \* separator (they come from a split on it), so no part is absolute and
@@ -127,6 +137,17 @@ ZoneOf(comps) ==
                              ELSE IF p.d = 1 THEN "sibling" ELSE "siblingIn")
        ELSE "outside"
 
+\* the name the layout is given in a slot: CREATE drops one trailing
+\* delimiter (RFC 3501 6.3.3), except from the name that is just the delimiter
+Eff(slot, nm) ==
+  IF slot = "CREATE" /\ Len(nm) > 1 /\ nm[Len(nm)] = "SEP"
+  THEN SubSeq(nm, 1, Len(nm) - 1) ELSE nm
+
+\* the slots fall into two groups that see the same effective name
+Groups == {"create", "plain"}
+Group(slot) == IF slot = "CREATE" THEN "create" ELSE "plain"
+EffG(g, nm) == Eff(IF g = "create" THEN "CREATE" ELSE "SELECT", nm)
+
 \* Resolve(layout, name): where the kernel ends up for get_path(name, '/')
 Resolve(layout, nm) == ZoneOf(Comps(layout, Split(nm)))
 
@@ -153,32 +174,45 @@ Reach(z) ==
 UsesPath(layout, slot) ==
   slot \in PathSlots /\ ~(layout = "pp" /\ slot = "RENAMEfrom")
 
+\* INBOX is refused before the layout is consulted in these slots
+InboxRefused == {"CREATE", "DELETE", "RENAMEfrom", "RENAMEto"}
+
 OkZone(z, slot) ==
   \/ z \in {"in", "rejected"}
   \/ z = "root" /\ slot \notin RootForbidden
 
 ConfinedIn(layout, nm, slot) ==
+  LET e == Eff(slot, nm) IN
   \/ ~UsesPath(layout, slot)
-  \/ /\ OkZone(Resolve(layout, nm), slot)
+  \/ e = <<"I">> /\ slot \in InboxRefused
+  \/ /\ OkZone(Resolve(layout, e), slot)
      /\ slot \in PrefixSlots =>
-          \A z \in Prefixes(layout, nm) : z \in {"in", "root", "rejected"}
+          \A z \in Prefixes(layout, e) : z \in {"in", "root", "rejected"}
 
 Bad(layout, nm) == {s \in Slots : ~ConfinedIn(layout, nm, s)}
 
-\* named deviation classes: a syntactic feature of the name, given only to
-\* names that do break confinement in some slot ("none" otherwise;
-\* "Unclassified" = an escape this file has no name for)
-DevClass(layout, nm) ==
-  LET comps == Comps(layout, Split(nm)) IN
-  IF Bad(layout, nm) = {} THEN "none"
-  ELSE IF layout = "pp"
+\* named deviation classes: a syntactic feature of the (effective) name
+\* ("Unclassified" = no feature this file has a name for; harmless unless the
+\* name breaks confinement in some slot, see Confined)
+DevClass(layout, e) ==
+  LET comps == Comps(layout, Split(e)) IN
+  IF layout = "pp"
   THEN IF comps[1] = <<"DOT">> THEN "PP_SubdirIsDot"              \* name ''
        ELSE IF comps[1] = <<"DOT", "DOT">> THEN "PP_SubdirIsDotDot"  \* '.', '/'
-       ELSE IF "base" \in Prefixes(layout, nm) THEN "PP_ParentIsDotDot" \* './/', '///x' ...
+       ELSE IF "base" \in Prefixes(layout, e) THEN "PP_ParentIsDotDot" \* './/', '///x' ...
        ELSE "Unclassified"
   ELSE IF HasDotDot(comps) THEN "FS_DotDotComponent"
        ELSE IF ZoneOf(comps) = "root" THEN "FS_RootAlias"       \* '', '.', '/', './/' ...
        ELSE "Unclassified"
+
+\* everything the harness compares the server with, per slot group
+View(layout, nm) ==
+  [g \in Groups |->
+     LET e == EffG(g, nm) IN
+     [zone    |-> Resolve(layout, e),
+      pzones  |-> Prefixes(layout, e),
+      allowed |-> Reach(Resolve(layout, e)) \cup Prefixes(layout, e),
+      cls     |-> DevClass(layout, e)]]
 
 \* longer names of interest beyond the exhaustive bound (cfg: ExtraNames <- DeepNames)
 DeepNames == {
@@ -197,42 +231,45 @@ DeepNames == {
   <<"a", "SEP", "a", "SEP", "DOT", "DOT", "SEP", "DOT", "DOT">>,  \* a/a/../.. (root)
   <<"DOT", "SEP", "SEP", "a", "SEP", "a">>,                       \* .//a/a ('++': parent '..')
   <<"a", "SEP", "a", "SEP", "a">>,                                \* a/a/a
-  <<"DOT", "DOT", "DOT">>, <<"DOT", "DOT", "a">>                  \* ... and ..a are ordinary
+  <<"DOT", "DOT", "DOT">>, <<"DOT", "DOT", "a">>,                 \* ... and ..a are ordinary
+  <<"I">>, <<"I", "SEP">>, <<"I", "SEP", "a">>,                   \* INBOX INBOX/ INBOX/a
+  <<"I", "SEP", "DOT", "DOT">>, <<"DOT", "SEP", "I">>             \* INBOX/.. ./INBOX
 }
 
 AllClasses == {"PP_SubdirIsDot", "PP_SubdirIsDotDot", "PP_ParentIsDotDot",
                "FS_DotDotComponent", "FS_RootAlias"}
 
 -----------------------------------------------------------------------------
-VARIABLES layout, name, zone, pzones, bad, allowed, dev
-vars == <<layout, name, zone, pzones, bad, allowed, dev>>
+VARIABLES layout, name, view, bad
+vars == <<layout, name, view, bad>>
 
 Init ==
   /\ layout \in Layouts
   /\ name \in Names
-  /\ zone = Resolve(layout, name)
-  /\ pzones = Prefixes(layout, name)
+  /\ view = View(layout, name)
   /\ bad = Bad(layout, name)
-  /\ allowed = Reach(zone) \cup pzones
-  /\ dev = DevClass(layout, name)
 
 Next == UNCHANGED vars
 Spec == Init /\ [][Next]_vars
 
+Zones == {"in", "root", "base", "sibling", "siblingIn", "outside", "rejected"}
+
 TypeOK ==
-  /\ zone \in {"in", "root", "base", "sibling", "siblingIn", "outside", "rejected"}
   /\ bad \subseteq Slots
-  /\ dev \in AllClasses \cup {"none", "Unclassified"}
+  /\ \A g \in Groups : /\ view[g].zone \in Zones
+                        /\ view[g].cls \in AllClasses \cup {"Unclassified"}
 
 \* C08 at design level: every name that breaks confinement in some slot
-\* belongs to a named, recorded deviation class
-Confined == bad # {} => dev \in Deviations
-
-\* the classes are given to escaping names only
-DeviationsAreReal == dev # "none" <=> bad # {}
+\* belongs, in that slot, to a named and recorded deviation class
+Confined == \A s \in bad : view[Group(s)].cls \in Deviations
 
 \* sanity of the transcription: the '++' layout yields exactly one path
 \* component, so it can reach at most the root itself or the base directory
 PPOneComponent ==
-  layout = "pp" => zone \in {"in", "root", "base", "rejected"} /\ pzones \subseteq {"in", "root", "base", "rejected"}
+  layout = "pp" => \A g \in Groups :
+      /\ view[g].zone \in {"in", "root", "base", "rejected"}
+      /\ view[g].pzones \subseteq {"in", "root", "base", "rejected"}
+
+\* the zone vocabulary is closed: what a command may touch is made of zones
+AllowedAreZones == \A g \in Groups : view[g].allowed \subseteq Zones
 =============================================================================
